@@ -4305,7 +4305,7 @@ sys_op! {
     /// See also: [&tcpc]
     (1, TlsConnect, Tcp, "&tlsc", "tls - connect", Mutating),
     /// Set a TCP socket to non-blocking mode
-    (1, TcpSetNonBlocking, Tcp, "&tcpsnb", "tcp - set non-blocking", Mutating),
+    (1(0), TcpSetNonBlocking, Tcp, "&tcpsnb", "tcp - set non-blocking", Mutating),
     /// Set the read timeout of a TCP socket in seconds
     (2(0), TcpSetReadTimeout, Tcp, "&tcpsrt", "tcp - set read timeout", Mutating),
     /// Set the write timeout of a TCP socket in seconds
